@@ -429,6 +429,821 @@ def run_table(chk, llb, model, base):
     return len(good) - ndis
 
 
+
+# =================================================================== (c) convergence oracle
+
+CMD_SH = r"""#!/bin/sh
+# cmd.sh NAME TAG KIND NOUT out... -- in... [-H hdr...]
+# deterministic command of the generated manifests: every output = its own name, NAME TAG, then the inputs and
+# headers concatenated.  Fails (before writing anything) iff an input or header contains the line FAIL.
+# restat: an output whose content would not change is left alone.  depfile: writes <first output>.d.
+# Outputs that were written are stamped with the next tick of the sandbox's logical clock.
+name=$1; tag=$2; kind=$3; n=$4; shift 4
+outs=""
+while [ "$n" -gt 0 ]; do outs="$outs $1"; shift; n=$((n-1)); done
+shift
+ins=""; hdrs=""; h=0
+for a in "$@"; do
+  if [ "$a" = "-H" ]; then h=1; elif [ $h = 1 ]; then hdrs="$hdrs $a"; else ins="$ins $a"; fi
+done
+echo "$name" >> runlog
+for f in $ins $hdrs; do
+  if grep -qx FAIL "$f"; then exit 1; fi
+done
+tmp=.tmp.$name
+{ echo "$name $tag"; cat $ins $hdrs; } > $tmp || { rm -f $tmp; exit 1; }
+touched=""
+first=""
+for o in $outs; do
+  [ -z "$first" ] && first=$o
+  { echo "== $o"; cat $tmp; } > $tmp.o
+  if [ "$kind" = restat ] && cmp -s $tmp.o $o; then :; else cp $tmp.o $o; touched="$touched $o"; fi
+done
+if [ "$kind" = depfile ]; then echo "$first: $ins $hdrs" > $first.d; fi
+rm -f $tmp $tmp.o
+if [ -n "$touched" ]; then
+  exec 9>>.clock.lock; flock 9
+  t=$(cat .clock); t=$((t+1)); echo $t > .clock
+  touch -d "@$((%d + t / 2)).$(( (t %% 2) * 5 ))00000000" $touched
+fi
+exit 0
+""" % BASE_S
+
+
+class Cmd:
+    def __init__(self, name, outs, exp, imp, oo, kind, hdrs=(), pool=None):
+        self.name, self.outs, self.exp, self.imp, self.oo = name, list(outs), list(exp), list(imp), list(oo)
+        self.kind, self.hdrs, self.pool, self.tag = kind, list(hdrs), pool, 1
+        self.undeclared = []          # files the command line reads although the manifest does not declare them (yet)
+
+    def copy(self):
+        c = Cmd(self.name, self.outs, self.exp, self.imp, self.oo, self.kind, self.hdrs, self.pool)
+        c.tag, c.undeclared = self.tag, list(self.undeclared)
+        return c
+
+
+class World:
+    """manifest + sources of one sandbox (the harness's own picture; nothing here comes from the Coq model)"""
+    def __init__(self):
+        self.src = {}            # source / header name -> content
+        self.cmds = []
+        self.phony = {}          # alias -> inputs
+        self.defaults = []
+
+    def copy(self):
+        w = World()
+        w.src = dict(self.src)
+        w.cmds = [c.copy() for c in self.cmds]
+        w.phony = {k: list(v) for k, v in self.phony.items()}
+        w.defaults = list(self.defaults)
+        return w
+
+    def producer(self):
+        return {o: c for c in self.cmds for o in c.outs}
+
+    def files_read(self, c):
+        """what the command line passes to cat: declared explicit+implicit FILE inputs, then undeclared reads"""
+        return [i for i in c.exp + c.imp if i not in self.phony] + c.undeclared
+
+    def command_line(self, c):
+        rd = self.files_read(c)
+        return "./cmd.sh %s t%d %s %d %s -- %s%s" % (c.name, c.tag, c.kind, len(c.outs), " ".join(c.outs), " ".join(rd),
+                                                    (" -H " + " ".join(c.hdrs)) if c.hdrs else "")
+
+    def manifest(self):
+        L = ["pool p1", "  depth = 1", ""]
+        for c in self.cmds:
+            L += ["rule r_%s" % c.name, "  command = " + self.command_line(c), "  description = %s" % c.name]
+            if c.kind == "restat":
+                L.append("  restat = 1")
+            if c.kind == "generator":
+                L.append("  generator = 1")
+            if c.kind == "depfile":
+                L += ["  depfile = %s.d" % c.outs[0], "  deps = gcc"]
+            if c.pool:
+                L.append("  pool = %s" % c.pool)
+            b = "build %s: r_%s %s" % (" ".join(c.outs), c.name, " ".join(c.exp))
+            if c.imp:
+                b += " | " + " ".join(c.imp)
+            if c.oo:
+                b += " || " + " ".join(c.oo)
+            L += [b, ""]
+        for a, ins in self.phony.items():
+            L.append("build %s: phony %s" % (a, " ".join(ins)))
+        if self.defaults:
+            L.append("default " + " ".join(self.defaults))
+        return "\n".join(L) + "\n"
+
+    def targets(self):
+        if self.defaults:
+            return list(self.defaults)
+        used = set(i for c in self.cmds for i in c.exp + c.imp + c.oo) | set(i for v in self.phony.values() for i in v)
+        return [o for c in self.cmds for o in c.outs if o not in used] + [a for a in self.phony if a not in used]
+
+    def reachable(self):
+        """commands the requested targets need (through every class of input and through aliases)"""
+        prod = self.producer()
+        seen, cmds, todo = set(), [], list(self.targets())
+        while todo:
+            n = todo.pop()
+            if n in seen:
+                continue
+            seen.add(n)
+            if n in self.phony:
+                todo += self.phony[n]
+            elif n in prod:
+                c = prod[n]
+                if c not in cmds:
+                    cmds.append(c)
+                todo += c.exp + c.imp + c.oo
+        return cmds
+
+    def expected_content(self, node, memo=None):
+        """the content a clean build leaves in the file (None: the producing command fails in a clean build)"""
+        memo = {} if memo is None else memo
+        if node in memo:
+            return memo[node]
+        prod = self.producer()
+        if node not in prod:
+            r = self.src.get(node)
+        else:
+            c = prod[node]
+            parts = [self.expected_content(i, memo) for i in self.files_read(c) + c.hdrs]
+            if any(p is None for p in parts) or any("FAIL" in p.split("\n") for p in parts):
+                r = None
+            else:
+                r = "== %s\n%s t%d\n%s" % (node, c.name, c.tag, "".join(parts))
+        memo[node] = r
+        return r
+
+    def dependents(self, names):
+        """commands that depend (through any class of input, aliases included) on one of the named commands"""
+        bad_nodes = set(o for c in self.cmds if c.name in names for o in c.outs)
+        res = set()
+        changed = True
+        while changed:
+            changed = False
+            for a, ins in self.phony.items():
+                if a not in bad_nodes and any(i in bad_nodes for i in ins):
+                    bad_nodes.add(a); changed = True
+            for c in self.cmds:
+                if c.name not in res and c.name not in names and any(i in bad_nodes for i in c.exp + c.imp + c.oo):
+                    res.add(c.name); bad_nodes.update(c.outs); changed = True
+        return res
+
+    def alias_dependents(self, names):
+        """through explicit / implicit inputs, aliases included (no order-only edge)"""
+        bad_nodes = set(o for c in self.cmds if c.name in names for o in c.outs)
+        res = set()
+        changed = True
+        while changed:
+            changed = False
+            for a, ins in self.phony.items():
+                if a not in bad_nodes and any(i in bad_nodes for i in ins):
+                    bad_nodes.add(a); changed = True
+            for c in self.cmds:
+                if c.name not in res and c.name not in names and any(i in bad_nodes for i in c.exp + c.imp):
+                    res.add(c.name); bad_nodes.update(c.outs); changed = True
+        return res
+
+    def hard_dependents(self, names):
+        """as dependents(), but only through explicit / implicit inputs that are not aliases"""
+        bad_nodes = set(o for c in self.cmds if c.name in names for o in c.outs)
+        res = set()
+        changed = True
+        while changed:
+            changed = False
+            for c in self.cmds:
+                if c.name not in res and c.name not in names and any(i in bad_nodes for i in c.exp + c.imp):
+                    res.add(c.name); bad_nodes.update(c.outs); changed = True
+        return res
+
+
+def gen_world(rng):
+    w = World()
+    nsrc = rng.randint(3, 5)
+    for i in range(nsrc):
+        w.src["s%d" % i] = "s%d v0\n" % i
+    for i in range(2):
+        w.src["h%d" % i] = "h%d v0\n" % i
+    w.src["ord0"] = "ord0 v0\n"          # a source that is only ever used as an order-only input
+    ncmd = rng.randint(3, 8)
+    avail = ["s%d" % i for i in range(nsrc)]
+    for i in range(ncmd):
+        name = "c%d" % i
+        outs = ["o%d" % i] + (["o%db" % i] if rng.random() < 0.25 else [])
+        exp = rng.sample(avail, min(len(avail), rng.randint(1, 3)))
+        rest = [a for a in avail if a not in exp]
+        imp = rng.sample(rest, 1) if rest and rng.random() < 0.45 else []
+        rest = [a for a in rest if a not in imp]
+        oo = []
+        if rng.random() < 0.45:
+            oo = ["ord0"] if (rng.random() < 0.5 or not rest) else rng.sample(rest, 1)
+        kind = rng.choice(["plain", "plain", "plain", "restat", "generator", "depfile"])
+        hdrs = rng.sample(["h0", "h1"], rng.randint(1, 2)) if kind == "depfile" else []
+        pool = rng.choice([None, None, None, "p1", "console"])
+        w.cmds.append(Cmd(name, outs, exp, imp, oo, kind, hdrs, pool))
+        avail += outs
+    # aliases: a top-level one, sometimes one that is used as an order-only input, rarely as an implicit input
+    tops = [o for o in w.targets()]
+    if rng.random() < 0.6 and tops:
+        w.phony["all"] = rng.sample(tops, rng.randint(1, len(tops)))
+    if rng.random() < 0.3 and ncmd >= 3:
+        k = rng.randrange(1, ncmd - 1)
+        w.phony["al%d" % k] = list(w.cmds[k - 1].outs[:1])
+        tgt = w.cmds[rng.randrange(k + 1, ncmd)] if k + 1 < ncmd else None
+        if tgt is not None:
+            (tgt.imp if rng.random() < 0.35 else tgt.oo).append("al%d" % k)
+    r = rng.random()
+    if r < 0.4:
+        w.defaults = []
+    elif r < 0.7 and "all" in w.phony:
+        w.defaults = ["all"]
+    else:
+        tops = w.targets()
+        w.defaults = rng.sample(tops, rng.randint(1, len(tops)))
+    return w
+
+
+class Sandbox:
+    def __init__(self, d, w, tool, llb):
+        self.d, self.w, self.tool, self.llb = d, w, tool, llb
+        os.makedirs(d)
+        open(os.path.join(d, "cmd.sh"), "w").write(CMD_SH)
+        os.chmod(os.path.join(d, "cmd.sh"), 0o755)
+        open(os.path.join(d, ".clock"), "w").write("100\n")
+        for n, c in w.src.items():
+            self.write_source(n, c)
+        self.write_manifest()
+
+    def J(self, n):
+        return os.path.join(self.d, n)
+
+    def take_tick(self):
+        t = int(open(self.J(".clock")).read()) + 1
+        open(self.J(".clock"), "w").write("%d\n" % t)
+        return t
+
+    def write_source(self, n, content):
+        put(self.J(n), content, self.take_tick())
+
+    def write_manifest(self):
+        # the manifest's own stamp is irrelevant (--no-regenerate; no rule produces it)
+        open(self.J("build.ninja"), "w").write(self.w.manifest())
+
+    def build(self, jobs, db, keep_going=None):
+        if self.tool == "ninja":
+            args = ["-j%d" % jobs] + (["-k", str(keep_going)] if keep_going is not None else [])
+            return build(self.llb, self.d, args, tool="ninja")
+        args = ["-j%d" % jobs] + ([] if db else ["--no-db"]) + (["-k", str(keep_going)] if keep_going is not None else [])
+        return build(self.llb, self.d, args)
+
+    def contents(self, nodes):
+        out = {}
+        for n in nodes:
+            try:
+                out[n] = open(self.J(n)).read()
+            except OSError:
+                out[n] = None
+        return out
+
+
+def apply_op(rng, w, sb_list, nops_done):
+    """Pick one edit, apply it to the world and to every sandbox; returns a description dict (with the clause-level
+    expectations the oracle checks) or None if the op is not applicable."""
+    reach = w.reachable()
+    if not reach:
+        return None
+    prod = w.producer()
+    kinds = ["edit_source", "edit_source", "touch_source", "edit_implicit", "edit_header", "edit_orderonly", "delete_output", "delete_output",
+             "change_command", "change_command", "add_statement", "remove_statement", "rewire_explicit", "rewire_implicit",
+             "rewire_class", "fail", "fail", "declare_input"]
+    kind = rng.choice(kinds)
+    frozen = set(u for c in w.cmds for u in c.undeclared)
+    op = dict(kind=kind)
+
+    def edit(n):
+        w.src[n] = "%s e%d\n" % (n, nops_done + 1)
+        for sb in sb_list:
+            sb.write_source(n, w.src[n])
+
+    def readers(n, classes=("exp", "imp", "hdrs")):
+        return [c for c in reach if any(n in getattr(c, k) for k in classes)]
+
+    if kind == "edit_source":
+        cands = [n for n in w.src if n.startswith("s") and n not in frozen and readers(n, ("exp",))]
+        if not cands:
+            return None
+        n = rng.choice(cands)
+        edit(n)
+        op.update(node=n, must_run=[c.name for c in readers(n, ("exp", "imp"))])
+    elif kind == "touch_source":
+        cands = [n for n in w.src if n.startswith("s") and n not in frozen and readers(n, ("exp", "imp"))]
+        if not cands:
+            return None
+        n = rng.choice(cands)
+        for sb in sb_list:
+            sb.write_source(n, w.src[n])      # same content, fresh stamp
+        op.update(node=n, must_run=[c.name for c in readers(n, ("exp", "imp"))])
+    elif kind == "edit_implicit":
+        cands = [n for n in w.src if n not in frozen and readers(n, ("imp",))]
+        if not cands:
+            return None
+        n = rng.choice(cands)
+        edit(n)
+        op.update(node=n, must_run=[c.name for c in readers(n, ("exp", "imp"))])
+    elif kind == "edit_header":
+        cands = [n for n in ("h0", "h1") if readers(n, ("hdrs",))]
+        if not cands:
+            return None
+        n = rng.choice(cands)
+        edit(n)
+        op.update(node=n, must_run=[c.name for c in readers(n, ("hdrs",))])
+    elif kind == "edit_orderonly":
+        cands = [n for n in w.src if n not in frozen and any(n in c.oo for c in reach)
+                 and not any(n in c.exp + c.imp + c.hdrs + c.undeclared for c in w.cmds)]
+        if not cands:
+            return None
+        n = rng.choice(cands)
+        edit(n)
+        op.update(node=n, must_run=[], runs_nothing=True)
+    elif kind == "delete_output":
+        c = rng.choice(reach)
+        o = rng.choice(c.outs)
+        for sb in sb_list:
+            rm(sb.J(o))
+        op.update(node=o, must_run=[c.name])
+    elif kind == "change_command":
+        c = rng.choice(reach)
+        c.tag += 1
+        op.update(cmd=c.name, must_run=[] if c.kind == "generator" else [c.name], generator=(c.kind == "generator"))
+        if c.kind == "generator":
+            # the generator exemption: the old output stays; the harness's clean-build picture must follow Ninja here
+            op["generator_exempt"] = c.name
+    elif kind == "add_statement":
+        i = len(w.cmds)
+        while any(c.name == "c%d" % i for c in w.cmds):
+            i += 1
+        avail = [n for n in w.src if n.startswith("s") and n not in frozen] + [o for c in w.cmds for o in c.outs]
+        c = Cmd("c%d" % i, ["o%d" % i], rng.sample(avail, min(2, len(avail))), [], [], rng.choice(["plain", "restat", "depfile"]))
+        if c.kind == "depfile":
+            c.hdrs = ["h1"]
+        w.cmds.append(c)
+        if w.defaults:
+            if "all" in w.phony and w.defaults == ["all"]:
+                w.phony["all"].append(c.outs[0])
+            else:
+                w.defaults.append(c.outs[0])
+        op.update(cmd=c.name, must_run=[c.name])
+    elif kind == "remove_statement":
+        used = set(i for c in w.cmds for i in c.exp + c.imp + c.oo) | set(i for v in w.phony.values() for i in v) | set(w.defaults)
+        cands = [c for c in w.cmds if not any(o in used for o in c.outs)]
+        if not cands or len(w.cmds) <= 2:
+            return None
+        c = rng.choice(cands)
+        w.cmds.remove(c)
+        op.update(cmd=c.name, must_run=[])
+    elif kind == "rewire_explicit":
+        c = rng.choice(reach)
+        idx = w.cmds.index(c)
+        avail = [n for n in w.src if n.startswith("s") and n not in frozen] + [o for d in w.cmds[:idx] for o in d.outs]
+        avail = [a for a in avail if a not in c.exp + c.imp + c.oo]
+        if not avail:
+            return None
+        new = rng.choice(avail)
+        if len(c.exp) > 1 and rng.random() < 0.5:
+            c.exp[rng.randrange(len(c.exp))] = new
+        else:
+            c.exp.append(new)
+        op.update(cmd=c.name, must_run=[] if c.kind == "generator" else [c.name], generator=(c.kind == "generator"))
+        if c.kind == "generator":
+            op["generator_exempt"] = c.name
+    elif kind == "rewire_implicit":
+        c = rng.choice(reach)
+        idx = w.cmds.index(c)
+        if c.imp and rng.random() < 0.5:
+            c.imp.pop(rng.randrange(len(c.imp)))
+        else:
+            avail = [n for n in w.src if n.startswith("s") and n not in frozen] + [o for d in w.cmds[:idx] for o in d.outs]
+            avail = [a for a in avail if a not in c.exp + c.imp + c.oo]
+            if not avail:
+                return None
+            c.imp.append(rng.choice(avail))
+        op.update(cmd=c.name, must_run=[] if c.kind == "generator" else [c.name], generator=(c.kind == "generator"))
+        if c.kind == "generator":
+            op["generator_exempt"] = c.name
+    elif kind == "rewire_class":
+        cands = [c for c in reach if (c.imp and any(i not in w.phony for i in c.imp)) or (c.oo and any(i not in w.phony for i in c.oo))]
+        if not cands:
+            return None
+        c = rng.choice(cands)
+        if c.imp and (not c.oo or rng.random() < 0.5):
+            n = c.imp.pop(0); c.oo.append(n)
+        else:
+            n = c.oo.pop(0); c.imp.append(n)
+        op.update(cmd=c.name, node=n, must_run=[] if c.kind == "generator" else [c.name], generator=(c.kind == "generator"))
+        if c.kind == "generator":
+            op["generator_exempt"] = c.name
+    elif kind == "declare_input":
+        # the command line already reads a file the manifest did not declare; the manifest is corrected (command line
+        # unchanged), later the file is edited.  Arranged in two steps: here the undeclared read is introduced together
+        # with its declaration being absent only in a PREVIOUS manifest, see run_history (scripted), so skip here.
+        return None
+    elif kind == "fail":
+        cands = [n for n in w.src if n.startswith("s") and n not in frozen and readers(n, ("exp", "imp"))]
+        if not cands:
+            return None
+        n = rng.choice(cands)
+        op.update(node=n, saved=w.src[n], failing=[c.name for c in readers(n, ("exp", "imp"))])
+        w.src[n] = "FAIL\n"
+        for sb in sb_list:
+            sb.write_source(n, w.src[n])
+    for sb in sb_list:
+        sb.w = w
+        sb.write_manifest()
+    return op
+
+
+def history(llb, d, seed, jobs, db, keep_going, with_ninja, want_clean):
+    """One generated manifest and edit history; returns findings (list of (key, what, replay)), counters, notes."""
+    rng = random.Random(seed)
+    w = gen_world(rng)
+    sb = Sandbox(os.path.join(d, "llb"), w, "llbuild", llb)
+    twins = [sb]
+    nj = None
+    if with_ninja:
+        nj = Sandbox(os.path.join(d, "nj"), w, "ninja", llb)
+        twins.append(nj)
+    findings, known, notes = [], [], []      # findings stop the history; known findings are reported and the history goes on
+    steps = []
+    stats = dict(builds=0, nontrivial=set(), clean_builds=0, ninja_disagreements=0, ninja_compared=0)
+
+    def record(kind, **kw):
+        steps.append(dict(kind=kind, **kw))
+
+    def rp(extra=None):
+        r = dict(seed=seed, jobs=jobs, db=db, keep_going=keep_going, steps=steps, manifest=w.manifest(), sources=dict(w.src), sandbox=sb.d,
+                 how="harness/py/props/c18.py:history(seed) regenerates the manifest and the edit sequence")
+        if extra:
+            r.update(extra)
+        return r
+
+    def alias_tainted():
+        """commands that (transitively) have a phony alias among their explicit/implicit inputs: known to re-run every build"""
+        direct = set(c.name for c in w.cmds if any(i in w.phony for i in c.exp + c.imp))
+        return direct | w.hard_dependents(direct)
+
+    def check_success_state(tag, ran):
+        reach = w.reachable()
+        nodes = [o for c in reach for o in c.outs]
+        got = sb.contents(nodes)
+        memo = {}
+        for n in nodes:
+            exp = w.expected_content(n, memo)
+            if got[n] != exp:
+                findings.append(("stale-output", "after a successful build (%s) the content of %s differs from what a clean build of the same manifest and sources produces" % (tag, n),
+                                 rp(dict(node=n, content=got[n], clean_build_content=exp, ran=ran))))
+                return False
+        return True
+
+    def null_rebuild(tag):
+        rc, ran, txt = sb.build(jobs, db, keep_going)
+        stats["builds"] += 1
+        record("null-rebuild", rc=rc, ran=ran)
+        if db:
+            if rc != 0 or ran:
+                tainted = alias_tainted()
+                if rc == 0 and ran and all(r in tainted for r in ran):
+                    if not any(k == "phony-alias-input-reruns" for (k, _, _) in known):
+                        known.append(("phony-alias-input-reruns", "an immediate rebuild re-runs %s: commands with a phony alias among their explicit/implicit inputs (or downstream of one) run on every build" % sorted(set(ran)),
+                                      rp(dict(ran=ran, text=txt[-800:]))))
+                else:
+                    findings.append(("null-build-runs", "an immediate rebuild (%s) ran %s / exit status %d" % (tag, ran, rc), rp(dict(ran=ran, text=txt[-800:]))))
+        else:
+            # --no-db: no stored hash, every non-generator command is executed again (proved: c18_no_prior_runs);
+            # generator commands decide on timestamps alone and must not run
+            # a generator command runs only if one of its explicit/implicit inputs was re-written by a command that ran
+            reach = w.reachable()
+            tainted = alias_tainted()
+            touched, must = set(), []
+            for c in w.cmds:
+                if c not in reach:
+                    continue
+                runs = c.kind != "generator" or c.name in tainted or any(i in touched for i in c.exp + c.imp)
+                if runs:
+                    must.append(c.name)
+                    if c.kind != "restat":
+                        touched.update(c.outs)
+            if rc != 0 or sorted(ran) != sorted(must):
+                findings.append(("nodb-rebuild-mismatch", "--no-db: an immediate rebuild ran %s (exit status %d); expected exactly %s: every non-generator command "
+                                 "(no stored hash) and the generator commands downstream of a re-written file" % (sorted(ran), rc, sorted(must)),
+                                 rp(dict(ran=ran, text=txt[-800:]))))
+
+    def build_all(tag):
+        rc, ran, txt = sb.build(jobs, db, keep_going)
+        stats["builds"] += 1
+        nran = None
+        if nj is not None:
+            nrc, nran, ntxt = nj.build(jobs, True, keep_going)
+        record("build", tag=tag, rc=rc, ran=ran, ninja_ran=nran)
+        return rc, ran, txt, nran
+
+    # ---- initial build
+    rc, ran, txt, nran = build_all("initial")
+    if rc != 0:
+        findings.append(("initial-build-failed", "the initial build of a generated manifest failed", rp(dict(text=txt[-1500:]))))
+        return findings + known, stats, notes, steps
+    if not check_success_state("initial", ran):
+        return findings + known, stats, notes, steps
+    null_rebuild("after the initial build")
+    nops = rng.randint(5, 9)
+    done = 0
+    guard = 0
+    while done < nops and guard < 60 and not findings:
+        guard += 1
+        op = apply_op(rng, w, twins, done)
+        if op is None:
+            continue
+        done += 1
+        stats["nontrivial"].add((op["kind"], jobs, db, keep_going))
+        record("op", **{("op" if k == "kind" else k): v for k, v in op.items() if k != "saved"})
+        if op["kind"] == "fail":
+            rc, ran, txt, nran = build_all("with a failing command")
+            failing = set(op["failing"])
+            deps = w.dependents(failing)
+            hard = w.hard_dependents(failing)
+            if rc == 0:
+                findings.append(("failure-not-reported", "a command failed (input %s contains FAIL) but the build exited with status 0" % op["node"], rp(dict(ran=ran, text=txt[-800:]))))
+                break
+            if not (failing & set(ran)):
+                findings.append(("failing-command-not-run", "none of the commands reading the edited input %s ran" % op["node"], rp(dict(ran=ran, failing=sorted(failing)))))
+                break
+            wrong = [r for r in ran if r in deps]
+            if wrong:
+                soft = [r for r in wrong if r not in hard]
+                if keep_going not in (None, 1) and len(soft) == len(wrong):
+                    # reached only through an alias or an order-only edge: the two keep-going findings
+                    viaalias = w.alias_dependents(failing)
+                    for r in soft:
+                        key = "phony-launders-failure" if r in viaalias else "order-only-failure-not-propagated"
+                        if not any(k == key for (k, _, _) in known):
+                            known.append((key, "keep-going build (-k %s): %s ran although a command it depends on %s failed" % (
+                                keep_going, r, "through a phony alias" if r in viaalias else "through an order-only input"), rp(dict(ran=ran, failing=sorted(failing)))))
+                else:
+                    findings.append(("failed-dependent-ran", "dependents %s of the failing command(s) %s were executed" % (wrong, sorted(failing)), rp(dict(ran=ran, text=txt[-800:]))))
+                    break
+            # retried next time
+            rc2, ran2, txt2, nran2 = build_all("again, not repaired")
+            if rc2 == 0 or not (failing & set(ran2)):
+                findings.append(("failed-not-retried", "the failing command(s) %s were not retried by the next build (ran %s, exit status %d)" % (sorted(failing), ran2, rc2),
+                                 rp(dict(ran=ran2, text=txt2[-800:]))))
+                break
+            # repair
+            w.src[op["node"]] = "%s r%d\n" % (op["node"], done)
+            for t in twins:
+                t.write_source(op["node"], w.src[op["node"]])
+            record("op", op="repair", node=op["node"])
+            rc, ran, txt, nran = build_all("after the repair")
+            if rc != 0:
+                findings.append(("repair-does-not-converge", "after repairing the failing input the build still fails", rp(dict(ran=ran, text=txt[-1200:]))))
+                break
+            if not check_success_state("after the repair", ran):
+                break
+            null_rebuild("after the repair")
+            continue
+        # ---- an ordinary edit
+        rc, ran, txt, nran = build_all(op["kind"])
+        if rc != 0:
+            findings.append(("build-failed", "the build after '%s' failed although no command can fail" % op["kind"], rp(dict(ran=ran, text=txt[-1500:]))))
+            break
+        if op.get("generator_exempt"):
+            # boundary (documented, Ninja compatible): a generator command is not re-run for a changed definition.
+            # Bring it to the clean-build state by deleting its outputs, then continue.
+            c = [c for c in w.cmds if c.name == op["generator_exempt"]][0]
+            if c.name in ran and db:
+                notes.append(dict(note="generator command %s WAS re-run after its definition changed" % c.name, seed=seed))
+            for t in twins:
+                for o in c.outs:
+                    rm(t.J(o))
+            record("op", op="force-generator", cmd=c.name)
+            rc, ran, txt, nran = build_all("forced generator")
+            if rc != 0:
+                findings.append(("build-failed", "the build after deleting a generator command's outputs failed", rp(dict(ran=ran, text=txt[-1500:]))))
+                break
+        reach_names = set(c.name for c in w.reachable())
+        missing = [m for m in op.get("must_run", []) if m in reach_names and m not in ran]
+        if missing and not op.get("generator_exempt"):
+            findings.append(("%s-did-not-rerun" % op["kind"].replace("_", "-"), "after '%s' (%s) the command(s) %s were not executed (ran: %s)" % (
+                op["kind"], op.get("node") or op.get("cmd"), missing, ran), rp(dict(ran=ran, expected_to_run=op.get("must_run")))))
+            break
+        tainted = alias_tainted()
+        if op.get("runs_nothing") and db and any(r not in tainted for r in ran):
+            findings.append(("order-only-edit-reran", "editing %s, which is used only as an order-only input, ran %s" % (op["node"], ran), rp(dict(ran=ran))))
+            break
+        if not check_success_state(op["kind"], ran):
+            break
+        if nran is not None and db:
+            stats["ninja_compared"] += 1
+            if sorted(set(nran)) != sorted(set(r for r in ran if r not in tainted or r in nran)):
+                stats["ninja_disagreements"] += 1
+                if len(notes) < 6:
+                    notes.append(dict(note="ninja 1.11.1 ran %s, llbuild ran %s after %s" % (sorted(set(nran)), sorted(set(ran)), op["kind"]), seed=seed))
+        null_rebuild("after %s" % op["kind"])
+    # ---- a real clean build of the final state, to validate the harness's own picture of "clean build"
+    if want_clean and not findings:
+        cd = os.path.join(d, "clean")
+        cs = Sandbox(cd, w, "llbuild", llb)
+        rc, ran, txt = cs.build(4, False)
+        stats["clean_builds"] += 1
+        reach = w.reachable()
+        nodes = [o for c in reach for o in c.outs]
+        got, inc = cs.contents(nodes), sb.contents(nodes)
+        if rc != 0:
+            findings.append(("clean-build-failed", "the clean build of the final manifest failed", rp(dict(text=txt[-1500:]))))
+        else:
+            for n in nodes:
+                if got[n] != inc[n]:
+                    findings.append(("stale-output", "content of %s after the incremental history differs from a real clean build in a fresh directory" % n,
+                                     rp(dict(node=n, content=inc[n], clean_build_content=got[n]))))
+                    break
+    return findings + known, stats, notes, steps
+
+
+# ------------------------------------------------------------------- scripted regression scenarios
+
+def scripted(llb, base):
+    """Small fixed histories: the inputs of repaired findings (corpus), of the known findings, and clause-level
+    expectations the random histories do not assert.  Returns (findings, number of scenarios)."""
+    out = []
+    n = [0]
+
+    def sandbox(name, manifest, files):
+        n[0] += 1
+        d = os.path.join(base, name)
+        os.makedirs(d)
+        for f, (content, t) in files.items():
+            put(os.path.join(d, f), content, t)
+        open(os.path.join(d, "build.ninja"), "w").write(manifest)
+        return d
+
+    def rpl(d, log, **kw):
+        return dict(sandbox=d, manifest=open(os.path.join(d, "build.ninja")).read(), builds=log, **kw)
+
+    # -- repaired 66b1a7c: declaring an implicit input the command line already reads, then editing it
+    for gen in (0, 1):
+        M = "rule R\n  command = cat a.txt b.txt > $out; echo $out >> runlog\n%sbuild out: R a.txt%s\n"
+        d = sandbox("rewire%d" % gen, M % ("  generator = 1\n" if gen else "", ""), {"a.txt": ("a\n", 10), "b.txt": ("b\n", 10)})
+        log = [build(llb, d, ["-j1"])]
+        open(os.path.join(d, "build.ninja"), "w").write(M % ("  generator = 1\n" if gen else "", " | b.txt"))
+        log.append(build(llb, d, ["-j1"]))
+        put(os.path.join(d, "b.txt"), "b2\n", T_NEW)
+        log.append(build(llb, d, ["-j1"]))
+        content = open(os.path.join(d, "out")).read() if os.path.exists(os.path.join(d, "out")) else None
+        if content != "a\nb2\n":
+            out.append(("rewire-generator-input-stale" if gen else "rewire-implicit-input-stale",
+                        "an implicit input was added to the build statement (command line unchanged) and then edited: the command was not re-run, "
+                        "the output is %r, a clean build gives 'a\\nb2\\n'%s" % (content, " (generator rule)" if gen else ""),
+                        rpl(d, log, history=["build", "declare `| b.txt`", "build", "edit b.txt (fresh mtime)", "build"])))
+    # -- repaired a03bdd8: an input goes missing while the output is newer than the other inputs
+    M = "rule CAT\n  command = cat $in > $out; echo $out >> runlog\nbuild c: CAT src2 | m\n"
+    d = sandbox("missing", M, {"src2": ("s2\n", 10), "m": ("m\n", 10)})
+    log = [build(llb, d, ["-j1"])]
+    rm(os.path.join(d, "m"))
+    log.append(build(llb, d, ["-j1"]))
+    log.append(build(llb, d, ["-j1"]))
+    if log[1][0] == 0 or log[2][0] == 0:
+        out.append(("missing-input-accepted", "an input of an up-to-date command was deleted: exit statuses of the next two builds are %d, %d (a clean build fails: "
+                    "missing input and no rule to build it)" % (log[1][0], log[2][0]), rpl(d, log, history=["build", "delete m", "build", "build"])))
+    # -- known: a generator command that writes its output and then fails is not retried
+    for gen in (1, 0):
+        M = "rule G\n  command = echo $out >> runlog; cat $in > $out; test ! -e failflag\n%sbuild g: G src\n" % ("  generator = 1\n" if gen else "")
+        d = sandbox("genfail%d" % gen, M, {"src": ("s\n", 10), "failflag": ("", 10)})
+        log = [build(llb, d, ["-j1"]), build(llb, d, ["-j1"])]
+        if log[0][0] == 0:
+            out.append(("scripted-setup", "the failing command did not fail", rpl(d, log)))
+        elif log[1][0] == 0 or "g" not in log[1][1]:
+            out.append(("generator-failed-not-retried" if gen else "failed-not-retried",
+                        "a %scommand that wrote its output and then failed is not retried by the next build (exit status %d, ran %s)" % (
+                            "generator " if gen else "", log[1][0], log[1][1]), rpl(d, log, history=["build (fails)", "build"])))
+    # -- known (keep-going): failure behind an order-only edge / behind an alias; default -k 1 must stop everything
+    M = ("rule CAT\n  command = cat $in > $out; echo $out >> runlog\nrule FAIL\n  command = echo $out >> runlog; false\n"
+         "build a: FAIL src\nbuild p: phony a\nbuild b: CAT src2 || a\nbuild c: CAT src2 | p\nbuild e: CAT src2 a\ndefault b c e\n")
+    for k in (None, 0, 2):
+        d = sandbox("keepgoing%s" % k, M, {"src": ("s\n", 10), "src2": ("s2\n", 10)})
+        log = [build(llb, d, ["-j1"] + ([] if k is None else ["-k", str(k)]))]
+        rc, ran, txt = log[0]
+        if rc == 0 or "a" not in ran:
+            out.append(("failure-not-reported", "a failing command: exit status %d, ran %s" % (rc, ran), rpl(d, log)))
+        if "e" in ran:
+            out.append(("failed-dependent-ran", "-k %s: the command with the failed command's output as an explicit input was executed" % k, rpl(d, log)))
+        if "b" in ran:
+            out.append(("order-only-failure-not-propagated" if k is not None else "failed-dependent-ran",
+                        "-k %s: `build b: CAT src2 || a` ran although a failed" % k, rpl(d, log)))
+        if "c" in ran:
+            out.append(("phony-launders-failure" if k is not None else "failed-dependent-ran",
+                        "-k %s: `build c: CAT src2 | p` (p: phony a) ran although a failed" % k, rpl(d, log)))
+    # -- known: a phony alias among the inputs re-runs the command on every build
+    M = ("rule CAT\n  command = cat $in > $out; echo $out >> runlog\nbuild a: CAT src\nbuild al: phony a\n"
+         "build c: CAT src2 | al\nbuild d: CAT src2 || al\ndefault c d\n")
+    d = sandbox("alias", M, {"src": ("s\n", 10), "src2": ("s2\n", 10)})
+    log = [build(llb, d, ["-j1"]), build(llb, d, ["-j1"])]
+    if log[1][0] != 0 or "d" in log[1][1] or "a" in log[1][1]:
+        out.append(("null-build-runs", "alias scenario: the immediate rebuild ran %s" % log[1][1], rpl(d, log)))
+    elif "c" in log[1][1]:
+        out.append(("phony-alias-input-reruns", "`build c: CAT src2 | al` (al: phony a) is executed again by an immediate rebuild", rpl(d, log, history=["build", "build"])))
+    # -- restat: an upstream command that leaves its output untouched does not re-run its dependents; without restat it does
+    for restat in (1, 0):
+        M = ("rule MK\n  command = echo $out >> runlog; if [ ! -f $out ]; then cp $in $out; fi\n%srule CP\n  command = echo $out >> runlog; cp $in $out\n"
+             "build mid: MK src\nbuild fin: CP mid\n") % ("  restat = 1\n" if restat else "")
+        d = sandbox("restat%d" % restat, M, {"src": ("s\n", 10)})
+        log = [build(llb, d, ["-j1"])]
+        stamp(os.path.join(d, "src"), T_NEW)
+        log.append(build(llb, d, ["-j1"]))
+        ran = log[1][1]
+        if "mid" not in ran:
+            out.append(("edit-source-did-not-rerun", "restat scenario: the command reading the touched source did not run", rpl(d, log)))
+        elif restat and "fin" in ran:
+            out.append(("restat-downstream-reran", "restat = 1 and the output was left untouched, yet the dependent was executed", rpl(d, log)))
+        elif not restat and "fin" not in ran:
+            out.append(("non-restat-downstream-not-run", "without restat a re-run command must propagate to its dependents (Ninja semantics), the dependent did not run", rpl(d, log)))
+    # -- depfile-discovered header, with the database; the same history without the database converges too
+    for db in (1, 0):
+        M = ("rule CC\n  deps = gcc\n  depfile = $out.d\n  command = echo $out >> runlog; echo \"$out: $in hdr\" > $out.d && cat $in hdr > $out\n"
+             "rule CAT\n  command = echo $out >> runlog; cat $in > $out\nbuild obj: CC src\nbuild fin: CAT obj\n")
+        d = sandbox("depfile%d" % db, M, {"src": ("s\n", 10), "hdr": ("h\n", 10)})
+        args = ["-j1"] + ([] if db else ["--no-db"])
+        log = [build(llb, d, args), build(llb, d, args)]
+        put(os.path.join(d, "hdr"), "h2\n", T_NEW)
+        log.append(build(llb, d, args))
+        fin = open(os.path.join(d, "fin")).read() if os.path.exists(os.path.join(d, "fin")) else None
+        if db and log[1][1]:
+            out.append(("null-build-runs", "depfile scenario: the immediate rebuild ran %s" % log[1][1], rpl(d, log)))
+        if "obj" not in log[2][1] or fin != "s\nh2\n":
+            out.append(("edit-header-did-not-rerun", "a header named only in the depfile was edited: ran %s, final content %r (clean build: 's\\nh2\\n')%s" % (
+                log[2][1], fin, "" if db else " [--no-db]"), rpl(d, log)))
+    # -- order-only: ordering is imposed on the first build, edits do not trigger
+    M = ("rule CAT\n  command = echo $out >> runlog; cat $in > $out\nbuild gen: CAT gsrc\nbuild use: CAT usrc || gen\ndefault use\n")
+    d = sandbox("orderonly", M, {"gsrc": ("g\n", 10), "usrc": ("u\n", 10)})
+    log = [build(llb, d, ["-j4"])]
+    put(os.path.join(d, "gsrc"), "g2\n", T_NEW)
+    log.append(build(llb, d, ["-j4"]))
+    if log[0][1] != ["gen", "use"]:
+        out.append(("order-only-not-ordered", "first build ran %s; the order-only input must be built first" % log[0][1], rpl(d, log)))
+    if log[1][1] != ["gen"]:
+        out.append(("order-only-edit-reran", "after editing the source of the order-only input the build ran %s (expected only its producer)" % log[1][1], rpl(d, log)))
+    return out, n[0]
+
+
+def run_histories(chk, llb, base):
+    rng = chk.rng
+    nh = chk.n(40, 400)
+    plans = []
+    for i in range(nh):
+        seed = rng.getrandbits(40)
+        jobs = 1 if i % 2 == 0 else 4
+        db = (i % 4 != 3)
+        kg = [None, None, None, 0, None, 2][i % 6]
+        plans.append((i, seed, jobs, db, kg, (i % 4 == 0 and db), (i % 5 == 0)))
+
+    def work(p):
+        i, seed, jobs, db, kg, with_ninja, want_clean = p
+        try:
+            return history(llb, os.path.join(base, "h%d" % i), seed, jobs, db, kg, with_ninja, want_clean)
+        except Exception as e:
+            import traceback
+            return ([("history-harness-error", "harness exception in a generated history: %r" % (e,), dict(seed=seed, trace=traceback.format_exc()[-1500:]))],
+                    dict(builds=0, nontrivial=set(), clean_builds=0, ninja_disagreements=0, ninja_compared=0), [], [])
+    tot = dict(builds=0, clean_builds=0, ninja_disagreements=0, ninja_compared=0)
+    okh = 0
+    with concurrent.futures.ThreadPoolExecutor(max_workers=min(8, vlib.NCPU)) as ex:
+        results = list(ex.map(work, plans))
+    allnotes = []
+    for p, (findings, st, notes, steps) in zip(plans, results):
+        for k in tot:
+            tot[k] += st[k]
+        for key in st["nontrivial"]:
+            chk.count(("history",) + tuple(str(x) for x in key))
+        chk.count(None, n=max(0, st["builds"] - len(st["nontrivial"])))
+        real = 0
+        for (key, what, rpd) in findings:
+            if chk.violation(key, what, rpd, found_input=(key not in ("history-harness-error", "nodb-rebuild-mismatch")),
+                             broken="c18 oracle on llbuild ninja build (history)" if key != "nodb-rebuild-mismatch" else "correspondence: Ninja.NinjaRules (no prior value => Run)"):
+                real += 1
+        if not real:
+            okh += 1
+        allnotes += notes
+        if p[0] == 1 and steps:
+            chk.sample(dict(kind="history", seed=p[1], jobs=p[2], db=p[3], keep_going=p[4], steps=steps[:8]))
+    chk.cov["histories"] = nh
+    chk.cov["history_builds"] = tot["builds"]
+    chk.cov["clean_builds_in_fresh_directories"] = tot["clean_builds"]
+    chk.cov["ninja_steps_compared"] = tot["ninja_compared"]
+    chk.cov["ninja_disagreements"] = tot["ninja_disagreements"]
+    if allnotes:
+        chk.notes["history_notes"] = allnotes[:8]
+    return okh
+
+
 def run(chk):
     llb = vlib.llbuild_bin()
     model = vlib.model_bin(AREA)
@@ -437,10 +1252,44 @@ def run(chk):
     shutil.rmtree(base, ignore_errors=True)
     os.makedirs(base)
     ok_table = run_table(chk, llb, model, os.path.join(base, "table"))
-    chk.cov["traces_validated_against_impl"] = ok_table
-    return chk.finish(level="proof", rule="TODO", trusted=[])
+    sf, ns = scripted(llb, os.path.join(base, "scripted"))
+    for (key, what, rpd) in sf:
+        chk.violation(key, what, rpd, found_input=True, broken="c18 oracle on llbuild ninja build (scripted history)")
+    chk.count(None, n=ns)
+    chk.cov["scripted_scenarios"] = ns
+    ok_hist = run_histories(chk, llb, os.path.join(base, "hist"))
+    chk.cov["traces_validated_against_impl"] = ok_table + ok_hist
+    chk.notes["proved_vs_sampled"] = (
+        "PROVED for all argument values (Props/Properties_C18.v over Ninja/NinjaRules.v): the command rule's decision (hash change, failed/missing/skipped "
+        "inputs, older/missing outputs with the exact </<= boundary, order-only and class insensitivity, null build, no-database boundary), validity of stored "
+        "values (retry of failed/skipped, missing outputs, hash), newestModTime = maximum, what the command hash covers. "
+        "SAMPLED at the CLI: system-level convergence against a clean build, restat, depfile-discovered inputs, pools, multiple outputs through the select rules, "
+        "-j1/-j4, --no-db, -k 0 / -k 2.")
+    chk.notes["design_boundaries"] = [
+        "--no-db: no stored command hash, so every non-generator command runs on every build (c18_no_prior_runs); the null-build clause is checked with the database only",
+        "default (non --strict) mode does not re-run on EQUAL timestamps (c18_decide_equal_stamp_nonstrict_refuted); edits in the histories always take a fresh tick of a logical clock",
+        "a generator command is not re-run for a changed definition (Ninja semantics): the histories force it once by deleting its outputs before comparing with the clean build",
+    ]
+    chk.assumptions = [
+        "commands are deterministic functions of the files named on their command line; every edit and every command execution takes a fresh tick of a logical clock (explicit mtimes, no wall-clock dependence)",
+        "FileInfo / isMissing / operator== as modelled in Codec/FileObs.v (tied by C13); checksum field all-zero in the Ninja driver",
+        "the engine around the rule (task created iff stored value invalid or a requested input changed; must-follow inputs never trigger) is modelled by rule_step and tied by the decision table only",
+        "the command hash is opaque in the model (c_hash); what it covers is hash_material (c18_hash_material_injective) and is tied by the rewiring scenarios",
+        "installed ninja 1.11.1 is used as a second opinion on which commands run; disagreements are notes",
+    ]
+    return chk.finish(level="proof",
+                      rule="decision table: micro-scenarios (prior value none/ok/other hash/rewired inputs/failed/skipped x generator x strict x restat x 1-2 outputs in states "
+                           "untouched/fresh/equal/older/missing x explicit/implicit/order-only inputs that are old/equal/newer/missing sources or upstream commands that are "
+                           "up to date/re-run/fail/are skipped/produce nothing x -k 1/-k 0), explicit mtimes, `executed?` and the 'cannot build' diagnostic compared with the "
+                           "extracted rule_step; non-trivial = the task is created (anything but UpToDate), distinct by the scenario parameters. "
+                           "histories: generated manifests (3-8 statements, explicit/implicit/order-only, 1-2 outputs, phony aliases, depfile, restat, generator, pools, default) x "
+                           "random edits (edit/touch source, implicit, header, order-only, delete output, change command, add/remove statement, rewire, fail+repair) x -j1/-j4 x db/--no-db x -k; "
+                           "non-trivial = distinct (edit kind, jobs, db, keep-going)",
+                      trusted=["hand-written model coq/Ninja/NinjaRules.v, tied by the decision table (correspondence)",
+                               "extraction (ExtrOcamlBasic) + ocaml/vmodel_ninjabuild.ml", "Python's os.stat / os.utime as the independent observer and clock",
+                               "/bin/sh, cat, cmp, flock, touch in the generated commands"])
 
 
 def replay(chk, rp):
-    print(json.dumps(rp, indent=1))
+    print(json.dumps({k: v for k, v in rp.items() if k not in ("coq_log_tail",)}, indent=1, default=str)[:6000])
     return run(chk)
